@@ -3,6 +3,7 @@ import Driver.CA
 import Driver.TG
 import Driver.MA
 import Driver.PV
+import Driver.FQ
 /-!
 Line-protocol driver: one operation per input line, one observation per output line:
 `<model observation>\t<spec observation>`.  First token selects the component.
@@ -15,6 +16,7 @@ structure All where
   tg : TG.St := {}
   ma : MA.St := {}
   pv : PV.St := {}
+  fq : FQ.St := {}
 
 def stepAll (s : All) (line : String) : All × String :=
   match (line.trimAscii.toString.splitOn " ").filter (· ≠ "") with
@@ -33,6 +35,9 @@ def stepAll (s : All) (line : String) : All × String :=
   | "pv" :: args =>
       let (c, a, b) := PV.step s.pv args
       ({ s with pv := c }, a ++ "\t" ++ b)
+  | "fq" :: args =>
+      let (c, a, b) := FQ.step s.fq args
+      ({ s with fq := c }, a ++ "\t" ++ b)
   | [] => (s, "")
   | _ => (s, "bad-component\tbad-component")
 
